@@ -1,0 +1,16 @@
+//go:build verif
+// +build verif
+
+package compile
+
+// Machine-checked contracts for gvc (see /verif/DESIGN.md). Comment-only file:
+// no executable code, excluded from every normal build.
+
+//@ contract compileField
+//@   props C09
+//@   requires src != nil
+//@   replay compile_field.go.tmpl compile id=src.ID; neg=options.allowNegativeIDs
+//@   ensures(id) err == nil ==> int64(result.ID) == int64(src.ID)
+//@   ensures(idrange) err == nil ==> (1 <= src.ID || options.allowNegativeIDs)
+//@   ensures(name) err == nil ==> result.Name == src.Name
+//@   ensures(fresh) err == nil ==> fresh(result)
